@@ -398,115 +398,15 @@ OPERATOR_FUNCS = {"add": ast.Add, "sub": ast.Sub, "mul": ast.Mult, "truediv": as
                   "floordiv": ast.FloorDiv, "mod": ast.Mod, "and_": ast.BitAnd, "xor": ast.BitXor}
 
 
+from .shared import const_table as _const_table_sh, specialise as _specialise_sh  # noqa: E402
+
+
 def _const_table(prog, f, name):
-    """a module-level dict display with string keys bound once to `name` (visible from f): {key: value node}, else None"""
-    kind, q = prog.resolve(f.module, name)
-    if kind != "var":
-        return None
-    mod, g = q.rsplit(".", 1)
-    vals = prog.modules[mod].globals.get(g, [])
-    if len(vals) != 1 or not isinstance(vals[0], ast.Dict):
-        return None
-    d = vals[0]
-    if not all(k is not None and is_str_const(k) for k in d.keys):
-        return None
-    # never written elsewhere
-    for fn in prog.functions.values():
-        for n in ast.walk(fn.node):
-            if isinstance(n, ast.Subscript) and isinstance(n.ctx, (ast.Store, ast.Del)) and isinstance(n.value, ast.Name) and n.value.id == g:
-                return None
-            if isinstance(n, ast.Call) and isinstance(n.func, ast.Attribute) and isinstance(n.func.value, ast.Name) and n.func.value.id == g \
-                    and n.func.attr in ("update", "pop", "setdefault", "clear", "popitem", "__setitem__"):
-                return None
-    return {k.value: v for k, v in zip(d.keys, d.values)}
+    return _const_table_sh(prog, f, ast.Name(id=name, ctx=ast.Load()))
 
 
 def _specialise(prog, f, var, value):
-    """Partial evaluation of f's body for `var == value` (a string): ('return', expression with locals expanded, stmt),
-    ('raise', stmt) or ('falloff',).  Tests on `var` are decided: ==, !=, in / not in a literal container or a constant
-    dict; a subscript `TABLE[var]` becomes the table's entry; operator.add(a, b) becomes a + b."""
-    import copy
-
-    env = {}
-
-    def expand(e):
-        e = copy.deepcopy(e)
-
-        class T(ast.NodeTransformer):
-            def visit_Name(s_, n):
-                if isinstance(n.ctx, ast.Load) and n.id in env:
-                    return copy.deepcopy(env[n.id])
-                return n
-
-            def visit_Subscript(s_, n):
-                s_.generic_visit(n)
-                if isinstance(n.value, ast.Name) and ((isinstance(n.slice, ast.Constant) and n.slice.value == value)
-                                                       or (isinstance(n.slice, ast.Name) and n.slice.id == var)):
-                    t = _const_table(prog, f, n.value.id)
-                    if t is not None and value in t:
-                        return copy.deepcopy(t[value])
-                return n
-
-            def visit_Call(s_, n):
-                s_.generic_visit(n)
-                d = dotted(n.func) or ""
-                if d.startswith("operator.") and d.split(".")[1] in OPERATOR_FUNCS and len(n.args) == 2 and not n.keywords:
-                    return ast.copy_location(ast.BinOp(left=n.args[0], op=OPERATOR_FUNCS[d.split(".")[1]](), right=n.args[1]), n)
-                return n
-
-        return T().visit(e)
-
-    def decide(t):
-        if isinstance(t, ast.UnaryOp) and isinstance(t.op, ast.Not):
-            r = decide(t.operand)
-            return None if r is None else not r
-        if isinstance(t, ast.BoolOp):
-            rs = [decide(v) for v in t.values]
-            if any(r is None for r in rs):
-                return None
-            return all(rs) if isinstance(t.op, ast.And) else any(rs)
-        if isinstance(t, ast.Compare) and len(t.ops) == 1 and isinstance(t.left, ast.Name) and t.left.id == var:
-            op, c = t.ops[0], t.comparators[0]
-            if isinstance(op, (ast.Eq, ast.NotEq)) and is_str_const(c):
-                return (c.value == value) == isinstance(op, ast.Eq)
-            if isinstance(op, (ast.In, ast.NotIn)):
-                members = None
-                if isinstance(c, (ast.Tuple, ast.List, ast.Set)) and all(is_str_const(e) for e in c.elts):
-                    members = {e.value for e in c.elts}
-                elif isinstance(c, ast.Name):
-                    tb = _const_table(prog, f, c.id)
-                    members = set(tb) if tb is not None else None
-                if members is not None:
-                    return (value in members) == isinstance(op, ast.In)
-        return None
-
-    def run(stmts):
-        for st in stmts:
-            if isinstance(st, ast.Expr) and isinstance(st.value, ast.Constant):
-                continue
-            if isinstance(st, ast.Assign) and len(st.targets) == 1 and isinstance(st.targets[0], ast.Name):
-                if st.targets[0].id == var:
-                    continue
-                env[st.targets[0].id] = expand(st.value)
-                continue
-            if isinstance(st, ast.If):
-                r = decide(st.test)
-                if r is None:
-                    raise AnalysisError(f"{f.qual}: cannot decide `{unparse(st.test)}` for {var} == {value!r}")
-                out = run(st.body if r else st.orelse)
-                if out is not None:
-                    return out
-                continue
-            if isinstance(st, ast.Return):
-                return ("return", expand(st.value) if st.value is not None else ast.Constant(value=None), st)
-            if isinstance(st, ast.Raise):
-                return ("raise", st)
-            if isinstance(st, ast.Pass):
-                continue
-            raise AnalysisError(f"{f.qual}: unmodelled statement `{short(st)}` in the operator dispatch")
-        return None
-
-    return run(f.body) or ("falloff",)
+    return _specialise_sh(prog, f, var, value, operator_calls=True)
 
 
 def r2_3(prog, rep):
